@@ -198,6 +198,8 @@ fn run_case(sink: &mut Sink, defs: &[Def], text: &str, qs: &[u32], verbose: bool
     // the same classes must be reported where the analysis reads them: InputBuffer::build fills the per-character classes from
     // the grammar's table.  ONE buffer object is reused for all definition files of the run (reset + build), so nothing may be
     // carried over from the table of an earlier file.
+    let mut range_term: Option<String> = None;
+    let mut ranges_obs: Vec<(usize, usize, u32)> = vec![];
     if bad.is_none() {
         let probe: String = qs.iter().filter_map(|c| char::from_u32(*c)).filter(|c| *c != '\0').take(60).collect();
         let bytes = reuse.dict_bytes.clone();
@@ -238,6 +240,7 @@ fn run_case(sink: &mut Sink, defs: &[Def], text: &str, qs: &[u32], verbose: bool
                 }
                 if bad.is_none() {
                     let pc: Vec<u32> = probe.chars().map(|c| c as u32).collect();
+                    ranges_obs = ranges.clone();
                     for (a, b, got) in ranges {
                         let want = if a == b { 0 } else { pc[a..b].iter().fold(u32::MAX, |acc, c| acc & naive(defs, *c)) };
                         if got != want {
@@ -247,6 +250,8 @@ fn run_case(sink: &mut Sink, defs: &[Def], text: &str, qs: &[u32], verbose: bool
                         }
                     }
                     sink.tag("classes_through_cat_of_range");
+                    range_term = Some(format!("check_cat_of_range {} {}", clist(v.iter().map(|(_, g)| cn(*g))),
+                        clist(ranges_obs.iter().map(|(a, b, g)| format!("({}%nat, {}%nat, {})", a, b, cn(*g))))));
                 }
             }
             Ok(Err(e)) => bad = Some(format!("building an input buffer over the query characters failed: {}", e)),
@@ -278,7 +283,11 @@ fn run_case(sink: &mut Sink, defs: &[Def], text: &str, qs: &[u32], verbose: bool
         sink.tag("iter_panics(default table)");
     }
     // and the same file through the model of the text reader (status 0 = loaded)
-    let term = format!("check_case_iter {} {} {} && check_text {} 0%N {}", rs, qsv, its, cbytes(text.as_bytes()), qsv);
+    let mut term = format!("check_case_iter {} {} {} && check_text {} 0%N {}", rs, qsv, its, cbytes(text.as_bytes()), qsv);
+    if let Some(rt) = &range_term {
+        term = format!("{} && {}", term, rt);
+    }
+    let _ = &ranges_obs;
     // non-trivial: at least two definition lines overlap or touch
     let mut nontrivial = false;
     for (i, a) in defs.iter().enumerate() {
@@ -349,7 +358,7 @@ fn malformed(sink: &mut Sink, rng: &mut Rng, n: usize) {
 }
 
 pub fn run(args: &Args) {
-    let mut sink = Sink::new("C17", &args.out, &["Model.CharCat", "Model.CharDefText"], args.seed, &args.tier);
+    let mut sink = Sink::new("C17", &args.out, &["Model.CharCat", "Model.CharDefText", "Model.CatOfRangeCheck", "Model.PathResolve"], args.seed, &args.tier);
     sink.rule("random char.def files (0..13 lines over a small pool of boundary points incl. 0, surrogate-gap and plane-16 edges; duplicates, single points, empty class lists, comments) x query points {every range end and its +-2 neighbours, 0, U+D7FF, U+E000, U+10FFFF, random}; non-trivial = at least two lines overlap or touch; distinct by generated Coq term; the classes are also read where the analysis reads them: through one reused InputBuffer with cat_at_char and with cat_of_range (single characters = their classes, runs of 2 and 3 = the intersection, empty range = none); every 60th file through the configuration route, incl. the resolution order of a relative characterDefinitionFile (path > resource dir > root dir > current directory) with same-named decoy files carrying marker classes at every lower-priority location and the process working directory changed for the stage");
     let mut reuse = Reuse { buf: InputBuffer::default(), dict_bytes: std::fs::read(format!("{}/sudachi/tests/resources/system.dic.test", repo())).unwrap() };
     if let Some(p) = &args.replay {
@@ -533,7 +542,6 @@ fn run_resolution_order(sink: &mut Sink, args: &Args, defs: &[Def], text: &str, 
         let mut d = desc(defs, text);
         d["resolution"] = json!({"file_in": {"path": present[0], "resource_dir": present[1], "root_dir": present[2], "cwd": present[3]}});
         sink.tag(&format!("resolution_order:selected={}", ["path", "resource_dir", "root_dir", "cwd"][selected]));
-        let id = sink.case_rust_only(d, true);
         if std::env::set_current_dir(&cwd).is_err() {
             continue;
         }
@@ -542,6 +550,22 @@ fn run_resolution_order(sink: &mut Sink, args: &Args, defs: &[Def], text: &str, 
             JapaneseDictionary::from_cfg_storage(&c, SudachiDicData::new(Storage::Owned(system.to_vec()))).map_err(|e| format!("{:?}", e))
         });
         std::env::set_current_dir(&orig_cwd).unwrap();
+        // which location's file the implementation used, read off the marker class of a code point every file covers;
+        // the presence pattern and the chosen location go through Model/PathResolve.v
+        let markers = marker(1) | marker(2) | marker(3);
+        let probe = qs.iter().cloned().find(|c| *c <= 0x10FFFE && *c != 0 && naive(defs, *c) & markers == 0);
+        let chosen: Option<usize> = match (&loaded, probe) {
+            (Ok(Ok(dict)), Some(c)) => {
+                let bits = dict.grammar().character_category.get_category_types(char::from_u32(c).unwrap()).bits();
+                Some((1..4).find(|k| bits & marker(*k) != 0).unwrap_or(0))
+            }
+            (Ok(Ok(_)), None) => None, // the genuine file itself uses the marker classes everywhere: implementation-only check
+            _ => Some(4),
+        };
+        let id = match chosen {
+            Some(ch) => sink.case(format!("check_resolve {} {}%nat", clist(present.iter().map(|b| cbool(*b).to_string())), ch), d, true),
+            None => sink.case_rust_only(d, true),
+        };
         match loaded {
             Ok(Ok(dict)) => {
                 for &c in qs {
